@@ -2,6 +2,7 @@ package main
 
 import (
 	"context"
+	"encoding/json"
 	"fmt"
 	"math"
 	"strconv"
@@ -921,6 +922,12 @@ func runParseOn(s *gobinlog.Streamer, m *tblMapper, packets [][]byte, file strin
 		pos, err := s.VerifParseEvents(ctx, ch, func(t *gobinlog.Transaction) error {
 			calls = append(calls, showTx(t))
 			kept = append(kept, t) // the documented usage: hand the transaction on and read it later
+			// ... and print it, as cmd/binlogDump does: the exported readers of a delivered transaction must not
+			// change it (the re-read at the end compares with the rendering taken above)
+			func() {
+				defer func() { recover() }()
+				json.Marshal(t)
+			}()
 			n++
 			if failAt >= 0 && n-1 == failAt {
 				if len(cancelOnFail) > 0 && cancelOnFail[0] {
